@@ -216,7 +216,7 @@ def prove(prop, modules=None):
             rel = m.replace(".", "/") + ".lean"
             path = os.path.join(LEAN, rel)
             lines = open(path).read().split("\n")
-            for em in re.finditer(re.escape(rel) + r":(\d+):\d+: error", log):
+            for em in re.finditer(r"error: " + re.escape(rel) + r":(\d+):\d+", log):
                 ln = int(em.group(1))
                 name = None
                 for k in range(min(ln, len(lines)) - 1, -1, -1):
